@@ -121,6 +121,28 @@ def check(run):
         run.obligation("end to end: SynchronizedWithNetwork over HTTPS against fake peers (in sync / off / unreachable), %d scenarios" % len(NET), nb is None, nb[1] if nb else "")
         if nb is not None and bad is None:
             run.violation("oracle:" + nb[0], nb[1], {"kind": "timenet", "op": nb[2], "why": nb[1]}, nb[0] != "harness")
+        # the peer's side of the measurement: the theorems assume that the reported clock reading is taken while the
+        # request is being served (Start <= reading <= End on one clock); the real status handler is asked repeatedly
+        import api_run
+        pb = None
+        aok, aexe, aout = api_run.build()
+        run.obligation("go harness builds from /repo (package main: api.HTTP status handler)", aok, aout)
+        if aok:
+            pops = ["start", "statustime 6 120", "statustime 3 0"]
+            pl, perr = api_run.run_ops(aexe, pops, tag="c19p", timeout=60)
+            if perr or len(pl) != len(pops):
+                pb = ("harness", perr or "short output", pops)
+            else:
+                for o, g in zip(pops[1:], pl[1:]):
+                    k = dict(x.split("=", 1) for x in g.split() if "=" in x)
+                    w = k.get("within", "0/1").split("/")
+                    if k.get("status") != "200" or w[0] != w[1]:
+                        pb = pb or ("peer-reading", "the JSON status of a running node reported a clock reading outside the request's own start..end in %s of %s requests (up to %s ms off): a joining node computes its offset from a stale reading" % (
+                            int(w[1]) - int(w[0]), w[1], k.get("worstms")), pops)
+            run.obligation("peer side: the clock reading in the JSON status is taken while the request is served (9 requests to the real handler)", pb is None, pb[1] if pb else "")
+            if pb is not None and bad is None and nb is None:
+                run.violation("oracle:" + pb[0], pb[1], {"kind": "api", "ops": pb[2], "why": pb[1]}, pb[0] != "harness")
+                nb = pb
         if bad is not None:
             i, pr = bad
             run.violation("oracle:" + pr[0].split(" ")[0], pr[0], {"kind": "time", "op": ops[i], "measurements": cases[i][1], "go_output": gl[i], "problems": pr}, True)
@@ -135,7 +157,7 @@ def check(run):
     else:
         run.violation("broken:harness-build", "the Go harness no longer builds against /repo", {"log": out[-2000:]}, False)
     run.assumptions += ["time.Time is modelled as unbounded integer nanoseconds; time.Time.Sub saturates at ±(2^63-1) ns as documented",
-                        "the peer's answer is produced at a local instant between Start and End (network delays arbitrary, non-negative)",
+                        "the peer's answer is produced at a local instant between Start and End (network delays arbitrary, non-negative); the real status handler is asked 9 times per run and its reading must lie within each request",
                         "collectTime/getServerTime (HTTP, goroutines) are not modelled: a failed request leaves Result zero (exercised end to end against fake HTTPS peers)"]
     return run.finish(rule="generated measurement sets (true offset, request delay, response delay; extremes ±2^63, year 1, year 2400); non-trivial = set containing an in-bound answered peer or a refusal; distinct by op text")
 
@@ -145,6 +167,18 @@ def replay(run, path):
     r = json.load(open(path))
     op = r.get("replay", {}).get("op")
     ok, exe, out = vlib.build_harness("timesafeguard", "internal/timesafeguard", HARNESS)
+    if r.get("replay", {}).get("kind") == "api":
+        import api_run
+        aok, aexe, aout = api_run.build()
+        pops = r["replay"]["ops"]
+        pl, perr = api_run.run_ops(aexe, pops, tag="c19pr", timeout=60)
+        bad = False
+        for o, g in zip(pops, pl):
+            print(o, "->", g)
+            if "within=" in g:
+                w = g.split("within=")[1].split()[0].split("/")
+                bad = bad or w[0] != w[1]
+        return 1 if bad else 0
     if r.get("replay", {}).get("kind") == "timenet":
         import shutil
         d = vlib.workdir("c19r")
